@@ -619,4 +619,103 @@ def mermaidFlows (md : Nat) (t : Tree) : List Flow :=
   match prune md t with
   | .node _ n _ cs => flowsL [] true n 0 cs
 
+/-! ## specification-side vocabulary used by the C18 theorems -/
+
+mutual
+/-- relative depths in pre-order -/
+def depthsT (d : Nat) : Tree → List Nat
+  | .node _ _ _ cs => d :: depthsL (d + 1) cs
+def depthsL (d : Nat) : List Tree → List Nat
+  | [] => []
+  | c :: cs => depthsT d c ++ depthsL d cs
+end
+
+/-- no two children of one node carry the same name (what `Node` enforces) -/
+def sibDistinct : Tree → Bool
+  | .node _ _ _ cs => decide ((cs.map Tree.name).Nodup) && sibDistinctL cs
+where sibDistinctL : List Tree → Bool
+  | [] => true
+  | c :: cs => sibDistinct c && sibDistinctL cs
+
+/-- the name does not end in a decimal digit -/
+def noDigitEnd (n : Str) : Bool :=
+  match n.getLast? with
+  | some c => !c.isDigit
+  | none => true
+
+/-- side conditions on a vertical style under which `str_to_tree` reads the text back:
+    equal positive lengths, the two connectors differ, and no window of the indentation
+    (a block of stems/gaps, possibly running into the next block or the connector) equals a connector -/
+def styleOk (st : Style) : Bool :=
+  st.lengthsOk && decide (0 < st.stem.length) && decide (st.branch ≠ st.stemFinal) &&
+  [st.stem, st.gap].all fun X =>
+    [st.stem, st.gap, st.branch, st.stemFinal].all fun Y =>
+      (List.range st.stem.length).all fun o =>
+        !([st.branch, st.stemFinal].contains (X.drop o ++ Y.take o))
+
+/-- `p in s` (substring test) -/
+def hasInfix (p : Str) : Str → Bool
+  | [] => p.isPrefixOf []
+  | c :: s => p.isPrefixOf (c :: s) || hasInfix p s
+
+/-- side conditions on a name: non-empty, first character neither blank nor one of the style's
+    glyph characters, and neither connector occurs inside the name -/
+def nameOk (st : Style) (n : Str) : Bool :=
+  match n with
+  | [] => false
+  | c :: _ =>
+    !pySpace c && !((st.stem ++ st.branch ++ st.stemFinal ++ [' ']).contains c) &&
+    !hasInfix st.branch n && !hasInfix st.stemFinal n
+
+/-- width of one column band: `len(node_str) + 1` -/
+def bandWidth (inter : Bool) (pad : Nat → Nat) (d : Nat) : Nat := if inter then pad d + 5 else 4
+
+/-- column at which the nodes of depth `e` start inside a block whose root has depth `d` -/
+def hcol (inter : Bool) (pad : Nat → Nat) (d : Nat) : Nat → Nat
+  | 0 => 0
+  | k + 1 => hcol inter pad d k + bandWidth inter pad (d + k)
+
+/-- what a node shows at its place: leaves `─ name`, inner nodes `─ name ─` / `───` -/
+def hlabel (S : HStyle) (inter : Bool) (pad : Nat → Nat) (d : Nat) (name : Str) (isLeaf : Bool) : Str :=
+  if isLeaf then S.branch :: ' ' :: rstrip (center name (pad d))
+  else if inter then S.branch :: ' ' :: center name (pad d) ++ [' ', S.branch]
+  else [S.branch, S.branch, S.branch]
+
+structure Placed where
+  depth : Nat
+  row : Nat
+  isLeaf : Bool
+  name : Str
+  deriving Repr, DecidableEq
+
+/-- does `_hprint_branch` insert the blank row between two one-row children -/
+def gapInserted (parts : List (List Str × Nat)) : Bool :=
+  match parts with
+  | [a, b] => a.1.length + b.2 - a.2 == 1
+  | _ => false
+
+mutual
+/-- where each node (pre-order; empty slots count as blank leaves) is placed: depth and row,
+    `off` = first row of the block -/
+def hplace (S : HStyle) (inter : Bool) (pad : Nat → Nat) (d off : Nat) : HTree → List Placed
+  | .hole => [⟨d, off, true, [' ', ' ']⟩]
+  | .node n cs =>
+    if !(cs.any HTree.isReal) then [⟨d, off, true, n⟩]
+    else
+      ⟨d, off + (hblock S inter pad d (.node n cs)).2, false, n⟩ ::
+        hplaceL S inter pad (d + 1) off (gapInserted (hblockL S inter pad (d + 1) cs)) cs
+def hplaceL (S : HStyle) (inter : Bool) (pad : Nat → Nat) (d off : Nat) (gap : Bool) : List HTree → List Placed
+  | [] => []
+  | c :: cs =>
+    hplace S inter pad d off c ++
+      hplaceL S inter pad d (off + (hblock S inter pad d c).1.length + (if gap then 1 else 0)) gap cs
+end
+
+/-- side conditions on a horizontal style under which the connector runs of neighbouring
+    blocks can be told apart (fails for the built-in "ascii" style: K4) -/
+def hstyleOk (S : HStyle) : Bool :=
+  S.firstChild != S.stem && S.firstChild != S.subsequentChild &&
+  S.lastChild != S.stem && S.lastChild != S.subsequentChild &&
+  S.branch != ' ' && S.stem != ' ' && S.firstChild != S.lastChild
+
 end Render
